@@ -136,6 +136,70 @@ func genSrvRobust(repo string) (string, error) {
 		}
 		return true
 	})
+	// (2e) the notification path: ChangeNotification sends on NotifyChannel under its mutex, outside any
+	// select; SetAttribute calls ChangeNotification inline; capacity of NotifyChannel in NewSubscription
+	notifyUnderLock, notifyInline, notifyCap := false, false, -1
+	{
+		files, _ := srvsecGoFiles(filepath.Join(repo, "server"))
+		for _, fn := range files {
+			f, err := parser.ParseFile(fset, fn, nil, 0)
+			if err != nil {
+				return "", err
+			}
+			for _, d := range f.Decls {
+				fd, ok := d.(*ast.FuncDecl)
+				if !ok || fd.Body == nil {
+					continue
+				}
+				switch {
+				case fd.Name.Name == "ChangeNotification" && fd.Recv != nil && strings.Contains(types.ExprString(fd.Recv.List[0].Type), "MonitoredItemService"):
+					locks, plainSend := false, false
+					ast.Inspect(fd.Body, func(n ast.Node) bool {
+						switch x := n.(type) {
+						case *ast.SelectStmt:
+							return false // a send inside a select is not counted
+						case *ast.DeferStmt:
+							if strings.HasSuffix(types.ExprString(x.Call.Fun), "Mu.Unlock") {
+								locks = true
+							}
+						case *ast.SendStmt:
+							if strings.HasSuffix(types.ExprString(x.Chan), "NotifyChannel") {
+								plainSend = true
+							}
+						}
+						return true
+					})
+					notifyUnderLock = locks && plainSend
+				case fd.Name.Name == "SetAttribute" && fd.Recv != nil && strings.Contains(types.ExprString(fd.Recv.List[0].Type), "NodeNameSpace"):
+					ast.Inspect(fd.Body, func(n ast.Node) bool {
+						switch x := n.(type) {
+						case *ast.GoStmt:
+							return false
+						case *ast.CallExpr:
+							if strings.HasSuffix(types.ExprString(x.Fun), "ChangeNotification") {
+								notifyInline = true
+							}
+						}
+						return true
+					})
+				case fd.Name.Name == "NewSubscription":
+					ast.Inspect(fd.Body, func(n ast.Node) bool {
+						kv, ok := n.(*ast.KeyValueExpr)
+						if !ok || types.ExprString(kv.Key) != "NotifyChannel" {
+							return true
+						}
+						if c, ok := kv.Value.(*ast.CallExpr); ok && len(c.Args) == 2 {
+							fmt.Sscan(types.ExprString(c.Args[1]), &notifyCap)
+						}
+						return true
+					})
+				}
+			}
+		}
+		if notifyCap < 0 {
+			return "", fmt.Errorf("capacity of Subscription.NotifyChannel not found")
+		}
+	}
 	// (3) recover() anywhere in package server / uasc (non-test, non-hook files)
 	var recoverers []string
 	for _, pkg := range []string{"server", "uasc"} {
@@ -188,6 +252,12 @@ func genSrvRobust(repo string) (string, error) {
 	fmt.Fprintf(&sb, "def refTypeDeleteLoop : Bool := %v\n\n", deleteLoop)
 	sb.WriteString("/-- `channelInstance.verifyAndDecrypt` compares the chunk length with the signature length before slicing -/\n")
 	fmt.Fprintf(&sb, "def signedChunkLengthChecked : Bool := %v\n\n", lengthChecked)
+	sb.WriteString("/-- MonitoredItemService.ChangeNotification sends on NotifyChannel with a plain send while its mutex is held -/\n")
+	fmt.Fprintf(&sb, "def notifySendUnderLock : Bool := %v\n\n", notifyUnderLock)
+	sb.WriteString("/-- NodeNameSpace.SetAttribute calls ChangeNotification as a plain call (on the dispatcher goroutine) -/\n")
+	fmt.Fprintf(&sb, "def setAttributeNotifiesInline : Bool := %v\n\n", notifyInline)
+	sb.WriteString("/-- buffer size of Subscription.NotifyChannel -/\n")
+	fmt.Fprintf(&sb, "def notifyChanCap : Nat := %d\n\n", notifyCap)
 	sb.WriteString("/-- functions of packages server and uasc that call `recover()` -/\n")
 	fmt.Fprintf(&sb, "def recoverers : List String := %s\n\n", srvsecLeanList(recoverers))
 	sb.WriteString("/-- (reference type id, `getSubRefs(srv, id)` as numeric ids, in order) for every ReferenceType node of ns 0 -/\n")
